@@ -221,8 +221,8 @@ theorem joinNW_sem (on : List String) (hon : on ≠ []) (N W : List (String × T
                     intro kv hkv
                     obtain ⟨s, hs, he⟩ := i2.named kv hkv
                     exact (a2.cols _).2 (.inr ⟨s, hs, he⟩)
-                  obtain ⟨d', hy, hJ, hw, hc⟩ := joinDef_sem on hon t1 r [] dr y a1.wf a2.wf hsh
-                    (fun kv hkv => by cases hkv) hdr_cols hj
+                  obtain ⟨d', hy, hJ, hw, hc, _⟩ := joinDef_sem on hon t1 r [] dr y a1.wf a2.wf hsh
+                    (fun kv hkv => by cases hkv) hdr_cols a1.on_nodup hj
                   subst hy
                   simp only [Option.some.injEq, Except.ok.injEq] at h
                   subst h
